@@ -10,6 +10,7 @@ P = {
     "C22.h": "ws modifier: by evaluation over strings with and without escapes, the rule's whitespace set is exactly the characters the modifier names (newline iff \\n, carriage return iff \\r, tab iff \\t, blank iff a blank)",
     "C01.i": "attribute type over repeated assignments: the type recorded by the first assignment and the type later assignments are compared with are the same expression",
     "C01.j": "by evaluation of _init_obj_attrs on instances of a user class with class-level attributes named like grammar attributes: the object itself gets every attribute of its rule - a new empty list per list attribute (not shared between objects or attributes), False for ?=, None for references, None or (auto_init_attributes) the base type's default for base types",
+    "C01.k": "by evaluation of parse_tree_to_objgraph.process_node / process_match on a sample parse tree: with use_regexp_group the match of a regex rule with exactly one group yields the group text, converted once under the rule's name with the position of the match; other matches are unchanged",
     "C01.a": "by evaluation of the grammar visitors on sample children: e? e* e+ (seq)# build Optional / ZeroOrMore / OneOrMore / UnorderedGroup, '-' sets suppress, !e / &e build Not / And; a= a+= a*= a?= build the documented root assignment rules with multiplicity, bool flag and type; a link makes a non-containment reference carrying provider, match rule and target; misuse (# on a non-sequence, second ?=) is a TextX error",
     "C01.b": "by evaluation of the modifier pipeline (visit_repeat_modifiers -> visit_repeat_operator -> visit_repeatable_expr / visit_assignment): a separator becomes the repetition's sep (named sep), eolterm its eolterm flag, each independent of the other; modifiers on ? = ?= are TextXSyntaxErrors",
     "C01.c": "rule modifiers (ws/skipws) are installed only on expressions whose _parse honours them (Sequence subclasses)",
@@ -17,14 +18,11 @@ P = {
     "C01.e": "attribute default table of _init_obj_attrs agrees with the documented defaults; python_type covers the base types",
     "C23.c": "(shared with C23) visitor methods subscript/iterate only non-terminal nodes",
     "C01.h": "a suppressed rule reference is wrapped whether or not the referenced rule still had to be resolved",
-    "C01.g": "use_regexp_group: group 1 is the value iff the option is on and the *pattern* has exactly one group (not a property of the individual match)",
   },
   declined="acceptance 'exactly when the PEG semantics accept', whitespace/comment skipping, backtracking, suppression and model equality over all grammars x inputs: properties of Arpeggio's interpreter, not of code shape",
   technique="decision-table extraction (path atoms) + writer/reader table agreement + class-capability check against the Arpeggio source"),
 "C02": dict(
   decided={
-    "C02.c": "the list branch of process_node appends every non-separator child in iteration order",
-    "C02.d": "plain-assignment decision table: second value for a single-valued attribute raises MULT_ASSIGN_ERROR before the conversion",
     "C02.e": "by evaluation of visit_textx_rule on 34 sample rule bodies (parsing-expression trees; isinstance follows Arpeggio's class hierarchy): an attribute becomes a list iff assigned with += / *=, under a repetition, or more than once on one path (alternatives of a choice do not add up, members of an unordered group do); ?= under a repetition is a TextXSemanticError; rule modifiers and references to other rules change nothing",
     "C02.f": "by evaluation of parse_tree_to_objgraph.process_node / process_match on a sample parse tree (12 objects and values, sample meta-classes, recording meta-model stand-ins): = stores one value, ?= stores True (False when absent), += stores every element in input order; a second value for a single-valued attribute is a 'Multiple assignments' TextXSemanticError",
     "C01.e": "(shared with C01) many-valued attributes start as [] for every configuration; base-type defaults follow the documented table",
@@ -47,7 +45,6 @@ P = {
     "C03.c": "recursion over user-shaped cyclic graphs (_tx_inh_by, rule references) carries a visited set covering the recursive argument",
     "C03.d": "textx_isinstance decision table (OBJECT / instance / equal fqn / any inheritor)",
     "C03.e": "by evaluation of the statements of TextXMetaModel.__init__ that create the base classes (recording stand-in for _new_class): NUMBER / BASETYPE inherit exactly their ordered choices of lang.py, OBJECT is abstract over BASETYPE",
-    "C03.f": "abstract-rule result selection: the first referenced rule whose kind is not 'match' (guard evaluated over the three kinds)",
     "C03.g": "the fixpoint's change flag is sticky within a pass (only set to True) and reset once at the top of each pass",
     "C03.i": "(shared with C25.f) classes an alias/abstract rule is inherited by come from the referenced rule objects",
     "C03.h": "cycle guards are keyed by identity and a visited hit skips the element instead of ending the search",
@@ -63,7 +60,6 @@ P = {
     "C04.a": "STRING: for each delimiter the regex's only escape alternative is backslash+delimiter and the converter strips one char per side and unescapes exactly that",
     "C04.b": "BOOL: finite language of the regex equals the documented spellings and the converter maps each to the documented boolean",
     "C04.c": "NUMBER tries STRICTFLOAT before INT, BASETYPE tries NUMBER first; INT/FLOAT/STRICTFLOAT converters are int/float of the whole match",
-    "C01.g": "(shared with C01) with use_regexp_group the text handed to the converter is group 1 only if the pattern has exactly one group",
   },
   declined="numeric and string round-trip equality for all values (transducer equivalence), behaviour of adjacent strings",
   technique="regex AST (re._parser) structure queries + abstract evaluation of the converter lambdas over the finite spelling set"),
@@ -84,6 +80,7 @@ P = {
   decided={
     "C06.a": "by evaluation of get_location on a sample object two levels below its model: keys line/col/nchar/filename, line/col of the object's start converted by the parser of the model that contains it, that model's file name, nchar = end - start",
     "C06.f": 'by evaluation of parse_tree_to_objgraph.process_node / process_match on a sample parse tree (12 objects and values, sample meta-classes, recording meta-model stand-ins): every object carries the start and end offset of the text its own rule matched (also objects sharing a span with their only child, and the object an abstract rule yields)',
+    "C06.g": 'by evaluation of the driver parse_tree_to_objgraph (recording stand-ins for the tree walkers, resolver class, loaders and cleanup functions; _start/_end_model_construction interpreted) on 9 load scenarios: _tx_filename is the file name given by the caller, None for a model loaded from a string; the model carries the meta-model and parser of its load and no construction mark afterwards',
     "C06.b": "collected attributes (incl. _tx_position/_tx_position_end) are copied to user objects one by one; an unsettable attribute suppresses only itself",
     "C06.c": "the text handed to the parser is the caller's string, unmodified",
     "C06.d": "position arithmetic is Arpeggio's (a re-implementation in textX is an analysis error: numeric correctness is not decidable here)",
@@ -106,7 +103,6 @@ P = {
 "C08": dict(
   decided={
     "C08.a": "because a defer (Postponed) path exists in resolve_one_step, many-valued references must be stored positionally (index derived from the cross-reference) or re-ordered before exposure; a bare append in resolution order is a violation",
-    "C02.c": "list references are queued in textual order (list branch of process_node)",
     "C08.b": "the index of the positional store comes from a position table whose key covers the list's determinants (owning object and attribute) injectively, which outlives a resolution round, and which is updated in parallel with the list (same index, same key) and by nothing else",
   },
   declined="nothing else: with C02.c the clause is the property",
@@ -167,6 +163,7 @@ P = {
     "C13.e": "the test that gates the descent of the processor walk looks the object's class up by its qualified name (_tx_fqn), the key under which every namespace of the meta-model is searched, not by the simple class name",
     "C13.f": "by evaluation of textxerror_wrap: the wrapper returns what the wrapped processor returns (the replacement value reaches the model)",
     "C13.g": "by evaluation on a meta-model object built by interpreting TextXMetaModel.__init__: after each register_obj_processors the processor that runs for a type is the one of the latest registration alone, the built-in conversion applies where it is not overridden, has_obj_processor agrees",
+    "C13.h": 'by evaluation of parse_tree_to_objgraph.process_node / process_match on a sample parse tree: every match (terminal or match-rule subtree) is converted exactly once under the name of its own rule, with the file, line and col of the match',
     "C13.a": "by evaluation of call_obj_processors over a sample model: contained objects are processed before their container, an object's own-rule processor before the declared-rule processor, each registered processor exactly once per object; in parse_tree_to_objgraph processors run after the resolution loop, the unresolved check and _end_model_construction of all models",
     "C13.b": "by evaluation: a non-None processor result replaces the object in its list slot / single attribute, the own-rule result wins over the declared-rule result, a None result leaves the object in place",
     "C13.c": "by evaluation: the target of a non-containment reference is not descended into, match-rule values are not handed to the walker's processors",
@@ -178,11 +175,14 @@ P = {
   decided={
     "C15.i": "releasing the per-object records, evaluated on a sample (records {1,2,9}, ids [1,2] recorded by this parser): exactly the parser's own records are removed, finished or not, and no others",
     "C15.j": "by evaluation of _cached_model_ids / _call_model_processors on a meta-model object with an interpreted global repository: when a model processor fails exactly the models this load added are removed and the error propagates, the models cached before stay (same objects); nothing is removed when no processor fails",
+    "C15.k": 'by evaluation of the driver parse_tree_to_objgraph (recording stand-ins for the tree walkers, resolver class, loaders and cleanup functions; _start/_end_model_construction interpreted) on 9 load scenarios: a failure in resolution, in an object processor or in a model loader removes the models of this load from the repositories, abandons their user objects, removes the construction marks and re-raises the same error; no processor runs after a resolution failure, nothing is resolved after a loader failure',
     "C14.i": "restore is idempotent per parser: the 'replaced' flag is cleared before any nesting counter is decremented, on every path and unconditionally (a repeated restore for the same parser does nothing)",
     "C14.h": "postponed initialisation: the per-object record is removed from _tx_obj_attrs before the collected attributes are applied to the object and before __init__ runs (the instrumented __setattr__ routes by the record's presence)",
     "C14.a": "obligation O1: attribute-method instrumentation of user classes is restored on every exit of every load for every model under construction; no release without acquire",
     "C14.c": "by evaluation with sample classes (own vs inherited attributes): _replace_user_attr_methods instruments every user class, also a subclass of a user class without dunder methods of its own, and replace followed by restore leaves every class's own attributes exactly as before",
     "C14.j": "by evaluation: instrumentation nests - a class stays instrumented until the restore of the outermost replacing parser; a repeated restore of one parser, and the restore of a parser that never replaced, change nothing",
+    "C14.m": "by evaluation of parse_tree_to_objgraph.process_node / process_match on a sample parse tree: an object of a user class is allocated from the user's class without running __init__, its attribute store is reserved, it is queued once for initialisation after the model is built, and it gets its parent like any other object",
+    "C14.n": 'by evaluation of the driver parse_tree_to_objgraph (recording stand-ins for the tree walkers, resolver class, loaders and cleanup functions; _start/_end_model_construction interpreted) on 9 load scenarios: a model of an immutable type (a match-rule result) restores the user-class instrumentation and releases the collected attributes at once, gets no resolver and is returned',
     "C14.d": "__init__ called once per created instance with kwargs filtered to grammar attributes, after restore and before processors",
     "C14.e": "on every normal path through parse_tree_to_objgraph the parser is handed over to the model or the user classes are restored at once (immutable models)",
     "C14.f": "cleanup-and-reraise handlers that restore the user classes are catch-all (KeyboardInterrupt/SystemExit abort a load too)",
@@ -251,6 +251,7 @@ P = {
     "C18.e": "the construction marker is tested for existence, not for its value",
     "C18.g": "per-load snapshots used by failure handlers are frame-local (loads nest through imports)",
     "C18.j": "by evaluation: remove_model / remove_models remove exactly the given models from both tables, also a model without file name; after a failing load the file is not visible in local_models",
+    "C18.k": "by evaluation of the driver parse_tree_to_objgraph (recording stand-ins for the tree walkers, resolver class, loaders and cleanup functions; _start/_end_model_construction interpreted) on 9 load scenarios: a successful main load runs build -> file name / meta-model / construction mark -> pre-resolution callback -> every ModelLoader provider with the caller's encoding -> resolver(parser, model, list) -> rounds over the included models still under construction (finished ones left alone) -> construction ended for all -> only then the object processors; a non-main load stops after attaching the resolver",
   },
   declined="'the next load succeeds with correct identities'",
   technique="obligation ledger over exceptional CFG exits through the call graph"),
@@ -361,6 +362,7 @@ P = {
     "C28.a": "at every pos_to_linecol site the parser and the offset belong to the same model (ownership pairing); provider call sites hand over the owner of the reference",
     "C28.b": "each raise site passes line, col and filename of the owner",
     "C28.g": "by evaluation of TextXModelParser._parse with the exception classes of textx/exceptions.py interpreted: a NoMatch becomes a TextXSyntaxError carrying the NoMatch's message, line, col, context, expected rules and the file name of the parser that reported it (the attributes are read after eval_attrs()); a successful parse returns the tree",
+    "C28.h": "by evaluation of the driver parse_tree_to_objgraph (recording stand-ins for the tree walkers, resolver class, loaders and cleanup functions; _start/_end_model_construction interpreted) on 9 load scenarios: the 'Unresolvable cross references' error names every unresolved reference with its class and is located (line, col, file) at one of them, converted by the parser of the model that contains it",
     "C28.c": "the location fields of one raise are assigned in the same loop iteration; by evaluation of the unresolved-reference branch: line, col and filename of the error belong to one and the same reference",
     "C28.d": "the resolver fills a provider error's location only where it has none",
     "C28.e": "every scope-provider call of the resolver (attached, registered or default provider) lies inside the try whose TextXError handler fills line, col and filename from the reference and re-raises",
@@ -406,7 +408,6 @@ P = {
   decided={
     "C33.a": "TextXMetaModel.process fills each location field of get_location into the error, guarded by 'is None', and re-raises",
     "C33.b": "by evaluation: the processor dispatch hands metamodel.process the location of the processed object (bound the way process declares its parameters); textxerror_wrap re-raises a TextXError of the processor unchanged (same object, same fields) and wraps other exceptions into a TextXError located at the object",
-    "C33.c": "the line/col handed to a match processor come from the start of the match on every reaching definition",
   },
   declined="numeric correctness of the location",
   technique="field-coverage table agreement between get_location and the handler"),
@@ -419,6 +420,7 @@ P = {
     "C34.f": "every created object is entered into the span map (None-test, not truth value)",
     "C34.h": "by evaluation of a resolver round with tool support on and off: every resolved model reference is recorded once with the reference's own start/end offsets and the target's file and span; builtin targets (plain objects) are not recorded and do not break the load; nothing is recorded with tool support off",
     "C34.i": 'by evaluation of parse_tree_to_objgraph.process_node / process_match on a sample parse tree (12 objects and values, sample meta-classes, recording meta-model stand-ins): with tool support every object is registered under its span, the innermost object for a shared span',
+    "C34.j": 'by evaluation of the driver parse_tree_to_objgraph (recording stand-ins for the tree walkers, resolver class, loaders and cleanup functions; _start/_end_model_construction interpreted) on 9 load scenarios: with tool support the model publishes the very list handed to its resolver, sorted by reference start after the last round, and its span map ordered by start descending / end ascending; without tool support nothing is attached',
   },
   declined="exactness of offsets",
   technique="origin dataflow + sort-key sign analysis + fill-order rule"),
